@@ -96,6 +96,8 @@ pub struct SessionSpec {
     /// the store answers every successful shard upload with "already exists" (Ok(false)), as a server does
     /// when a retried request arrives twice
     pub shard_reply_exists: bool,
+    /// global-dedup shards are handed out HMAC-keyed and without file records, as the server does
+    pub global_keyed_seed: Option<u64>,
 }
 
 pub struct FileOutcome {
@@ -193,6 +195,7 @@ pub fn run_session(d: &Dirs, spec: &SessionSpec, plan: Plan, policy: ErrPolicy) 
             let mut plan = plan;
             plan.delay_seed = spec.delay_seed;
             plan.shard_reply_exists = spec.shard_reply_exists;
+            plan.global_keyed_seed = spec.global_keyed_seed;
             if plan.max_delay_us == 0 {
                 plan.max_delay_us = 1500;
             }
@@ -689,6 +692,9 @@ pub fn judge_success_session(
         }
         if m.deduped_chunks_by_global_dedup > 0 {
             kinds.insert("global-dedup");
+            if spec.global_keyed_seed.is_some() {
+                kinds.insert("global-dedup-keyed");
+            }
             rep.count("C01", "files_with_global_dedup", 1);
         }
         if m.deduped_chunks > 0 {
@@ -1025,6 +1031,7 @@ pub fn gen_history(rng: &mut Rng, l: &Limits, o: &GenOpts) -> Vec<SessionSpec> {
             // "another process": a later session of the shared cache through its own manager instance
             cache_alias: if !fresh && si > 0 && rng.chance(1, 4) { Some(si) } else { None },
             shard_reply_exists: rng.chance(1, 5),
+            global_keyed_seed: if fresh && rng.chance(2, 3) { Some(rng.next_u64()) } else { None },
         });
     }
     sessions
@@ -1032,7 +1039,7 @@ pub fn gen_history(rng: &mut Rng, l: &Limits, o: &GenOpts) -> Vec<SessionSpec> {
 
 pub fn session_json(s: &SessionSpec) -> Value {
     json!({
-        "workers": s.workers, "concurrent": s.concurrent, "own_manager_instance_via_alias_path": s.cache_alias.is_some(), "global_dedup_fresh_cache": s.fresh_cache_global_dedup, "delays": s.delay_seed.is_some(), "shard_upload_reply_exists": s.shard_reply_exists,
+        "workers": s.workers, "concurrent": s.concurrent, "own_manager_instance_via_alias_path": s.cache_alias.is_some(), "global_dedup_fresh_cache": s.fresh_cache_global_dedup, "delays": s.delay_seed.is_some(), "shard_upload_reply_exists": s.shard_reply_exists, "global_dedup_shards_keyed": s.global_keyed_seed.is_some(),
         "salt_zero": s.salt == [0u8; 32],
         "files": s.files.iter().map(|f| json!({"len": f.bytes.len(), "cut_kind": f.cut_kind, "recipe": f.recipe.iter().map(|x| x.to_json()).collect::<Vec<_>>()})).collect::<Vec<_>>()
     })
